@@ -188,11 +188,13 @@ func (r *subreader) readLine(
 	for {
 		var oneline string
 		oneline, err = r.rd.ReadString('\n')
+		// Record the line before reporting any error: wrapErr relies on
+		// lines having an entry for every line number handed out.
+		r.lines = append(r.lines, oneline)
+		r.lineno++
 		if err != nil && err != io.EOF {
 			return "", pos{}, true, false, startPos.wrapErr(err)
 		}
-		r.lines = append(r.lines, oneline)
-		r.lineno++
 		if strings.HasSuffix(oneline, "\\\n") {
 			oneline = oneline[:len(oneline)-2] + "\n"
 			line += oneline
